@@ -23,7 +23,7 @@ PRELUDE = "from typing import *\nimport typing\n"
 
 
 # ------------------------------------------------------------------------------ corpus
-def gen_fn_job(ch, jid, label):
+def gen_fn_job(ch, jid, label, allow_stale_docs=False):
     """A user-written function/method with a docstring documenting all / some / none of its parameters,
     in or out of signature order."""
     desc = render.gen_desc(ch, "conservative" if ch.chance(label + ".prof", 0.7) else "wide", 1, 6, label)
@@ -69,9 +69,15 @@ def gen_fn_job(ch, jid, label):
                     alt = {"int": "7", "float": "0.75", "bool": "True", "str": '"other"'}.get(type(val).__name__, "7")
                     p["doc"] += ". In legacy mode " + other[0].lower() + other[1:] % alt
                 p["doc_announces_default"] = True
+    extra_documented = []
+    if allow_stale_docs and ch.chance(label + ".stale", 0.2):
+        # stale documentation: names the docstring still describes although the signature no longer has them
+        # (or keys forwarded through **kwargs)
+        pool = [w for w in render.WORDS if w not in names]
+        extra_documented = ch.sample(label + ".stalenames", pool, ch.int(label + ".nstale", 2, 4))
     fname = ch.choice(label + ".fname", ["train", "run", "fit", "build"])
     src = render.render_function(desc, fname, ftype=ftype, inline_types=inline, kwonly=kwonly, documented=documented, style=style,
-                                 body=["total = 0"] if ch.chance(label + ".body", 0.3) else None)
+                                 body=["total = 0"] if ch.chance(label + ".body", 0.3) else None, extra_documented=extra_documented)
     truth = {"names": names + ([desc["kwargs"]] if desc.get("kwargs") else []),
              "documented": documented, "style": style, "inline": inline, "ftype": ftype, "kwonly": kwonly,
              "params": {p["name"]: {"typ": p["typ"], "doc": p["doc"], "default": p["default"], "announces": bool(p.get("doc_announces_default"))} for p in desc["params"]}}
@@ -235,6 +241,13 @@ def gen_wrap_job(ch, jid, label):
         typ = ch.choice("%s.p%d.typ" % (label, i), ["str", "int", "Optional[str]", "Literal['np', 'tf']",
                                                     "Optional[Literal['alpha', 'beta', 'gamma', 'delta', 'epsilon', 'zeta', 'eta', 'theta']]"])
         d = render.gen_default(ch, typ if not typ.startswith("Optional[Literal") else "str", "%s.p%d.def" % (label, i))
+        sentence = ch.weighted("%s.p%d.sent" % (label, i), [("no", 3), ("with_key", 1), ("without_key", 1)])
+        if sentence != "no" and d is not None and d.get("v") is not None:
+            # the description itself announces the default (as a description parsed from an existing docstring does)
+            v = d["v"]
+            doc = doc + ". Defaults to " + (('"%s"' % v) if isinstance(v, str) else repr(v))
+            if sentence == "without_key":
+                d = "ABSENT"
         params.append({"name": nme, "typ": typ, "doc": doc, "default": d})
     summary = prose(label + ".sum", *ch.choice(label + ".sumsize", [(3, 5), (10, 16), (30, 50)])).capitalize() + "."
     return {"id": jid, "kind": "wrap", "desc": {"doc": summary, "params": params, "returns": None, "kwargs": None}}
@@ -255,7 +268,7 @@ def gen_corpus(seed, prop, n):
         else:
             kind = ch.weighted(lab, [("fn", 5), ("cls", 2), ("hop", 2), ("hopgroup", 1.2), ("doc", 1), ("sync", 1), ("baddoc", 0.6), ("plaindoc", 1.5)])
         if kind == "fn":
-            jobs.append(gen_fn_job(ch, i, lab))
+            jobs.append(gen_fn_job(ch, i, lab, allow_stale_docs=(prop == "C12")))
         elif kind == "cls":
             jobs.append(gen_class_job(ch, i, lab))
         elif kind == "hop":
@@ -691,7 +704,9 @@ class Replica(object):
                 e["doc"] = p["doc"]
                 if p["typ"]:
                     e["typ"] = p["typ"]
-                if p["default"] is not None:
+                if p["default"] == "ABSENT":
+                    pass  # the default lives in the prose only
+                elif p["default"] is not None:
                     e["default"] = p["default"]["v"] if p["default"]["v"] is not None else "```None```"
                 params[p["name"]] = e
             return {"name": "f", "type": "static", "doc": desc["doc"], "params": params, "returns": None}
